@@ -135,6 +135,7 @@ def register(reg):
 
     register_order(reg)
     register_project_sql(reg)
+    register_extend_sql(reg)
     register_order_steps(reg)
     register_small_steps(reg)
 
@@ -312,6 +313,99 @@ def register_project_sql(reg):
 
 
 KEYS_C09_SQL = ["SQLModel.project_to_near_sql"]
+
+
+# ====================================================================== C27: the OVER ( PARTITION BY ... ORDER BY ... ) text of SQLModel.extend_to_near_sql
+def register_extend_sql(reg):
+    """REGION contract: the statements of the real extend_to_near_sql from `window_term = ""` up to (not including) `terms: ... = OrderedDict()`,
+    re-extracted from the source on every run.  Dropped: everything before (argument defaults, the `using` bookkeeping, the sub-query) and after (term
+    assembly, the merge into the sub-query, the NearSQL object).  The region reads only `self` and `extend_node`."""
+    import ast as _ast
+    import z3
+    from pyvc.api import Contract, T, VList, VNone, VOpt, VPy, VScalar, VSet, VStr, VTuple, VDict, fresh_name
+    from contracts.vr_common import COLS, NODE
+    SM = T.obj("SQLModel")
+
+    def quote(S):
+        return S.func("quote_identifier", S.Atom, S.Atom)
+
+    def region(fn):
+        start = end = None
+        for i, stmt in enumerate(fn.body):
+            if start is None and isinstance(stmt, _ast.Assign) and _ast.unparse(stmt) == "window_term = ''":
+                start = i
+            if start is not None and isinstance(stmt, _ast.AnnAssign) and _ast.unparse(stmt.target) == "terms":
+                end = i
+                break
+        if start is None or end is None:
+            return []
+        return fn.body[start:end]
+
+    def ens(c):
+        S, eng, st = c.S, c.eng, c.st
+        node = c.extend_node
+        pb, ob = c.field(node, "partition_by"), c.field(node, "order_by")
+        rev = eng.list_mem(c.field(node, "reverse"), st)
+        win = c.field(node, "windowed_situation").z
+        wt = st.env.get("window_term")
+        wv = st.env.get("window_vars")
+        if wt is None or wv is None:
+            return [("region-defines-window_term-and-window_vars", z3.BoolVal(False))]
+        wtz = eng.as_atom(wt, st, None)
+        cat = S.func("str_concat", S.Atom, S.Atom, S.Atom)
+        join = S.func("str_join", S.Atom, z3.ArraySort(z3.IntSort(), S.Atom), z3.IntSort(), S.Atom)
+        calls = st.ghost.get("join_calls", [])
+        i = z3.Int("win_i")
+        out = []
+        has_window = z3.Or(win, pb.n > 0, ob.n > 0)
+        empty = S.str_const("")
+        out.append(("no-OVER-clause-exactly-for-a-row-wise-extend", (wtz == empty) == z3.Not(has_window)))
+        # which join calls happened on this path is fixed by the path: 0, 1 or 2 calls, PARTITION BY first
+        desc = S.str_const(" DESC")
+        want_o = lambda k: z3.If(rev[ob.arr[k]], cat(quote(S)(ob.arr[k]), desc), quote(S)(ob.arr[k]))
+        part_ok = lambda L: z3.And(L.n == pb.n, z3.ForAll([i], z3.Implies(z3.And(0 <= i, i < pb.n), L.arr[i] == quote(S)(pb.arr[i]))))
+        ord_ok = lambda L: z3.And(L.n == ob.n, z3.ForAll([i], z3.Implies(z3.And(0 <= i, i < ob.n), L.arr[i] == want_o(i))))
+        sep = S.str_const(", ")
+
+        def text(*pieces):
+            """left-to-right concatenation as Python evaluates `a + b + c`: adjacent literals fold into one literal"""
+            acc = None
+            for p in pieces:
+                if acc is None:
+                    acc = p
+                elif isinstance(acc, str) and isinstance(p, str):
+                    acc = acc + p
+                else:
+                    acc = cat(S.str_const(acc) if isinstance(acc, str) else acc, S.str_const(p) if isinstance(p, str) else p)
+            return S.str_const(acc) if isinstance(acc, str) else acc
+
+        J = lambda L: join(sep, L.arr, L.n)
+        if len(calls) == 0:
+            out.append(("no-PARTITION-BY/ORDER-BY-only-without-partition-and-order-columns", z3.And(pb.n <= 0, ob.n <= 0)))
+            out.append(("window-text", z3.Implies(has_window, wtz == text(" OVER ( ", " ) "))))
+        elif len(calls) == 2:
+            out.append(("PARTITION-BY-lists-all-quoted-partition-columns-in-order", z3.And(pb.n > 0, part_ok(calls[0][1]), calls[0][0] == ", ")))
+            out.append(("ORDER-BY-lists-all-quoted-order-columns-in-order-with-DESC-exactly-on-reversed-ones", z3.And(ob.n > 0, ord_ok(calls[1][1]), calls[1][0] == ", ")))
+            out.append(("window-text", wtz == text(" OVER ( ", "PARTITION BY ", J(calls[0][1]), " ", "ORDER BY ", J(calls[1][1]), " ", " ) ")))
+        else:
+            L = calls[0][1]
+            is_part = z3.And(pb.n > 0, ob.n <= 0, part_ok(L), wtz == text(" OVER ( ", "PARTITION BY ", J(L), " ", " ) "))
+            is_ord = z3.And(ob.n > 0, pb.n <= 0, ord_ok(L), wtz == text(" OVER ( ", "ORDER BY ", J(L), " ", " ) "))
+            out.append(("a-single-clause-is-PARTITION-BY-over-all-partition-columns-or-ORDER-BY-over-all-order-columns-with-DESC-on-reversed-ones", z3.And(calls[0][0] == ", ", z3.Or(is_part, is_ord))))
+        g = z3.Const("win_g", S.Atom)
+        wvs = eng.set_of(wv, st, None) if hasattr(eng, "set_of") else wv
+        out.append(("window_vars-are-exactly-the-partition-and-order-columns",
+                    z3.ForAll([g], wvs.arr[g] == z3.Or(eng.list_mem(pb, st)[g], eng.list_mem(ob, st)[g]))))
+        return out
+
+    reg.add(Contract(key="SQLModel.extend_to_near_sql:window-clause", file="data_algebra/sql_model.py", qualname="SQLModel.extend_to_near_sql", cls="SQLModel",
+                     params={"self": SM, "extend_node": T.obj("ExtendNode"), "using": Ty_py_none(), "temp_id_source": Ty_py_none(), "sql_format_options": Ty_py_none()},
+                     ensures=ens, body_select=region, names=("extend_to_near_sql:window-clause",), local_types={"window_vars": T.set(T.atom)},
+                     requires=lambda c: [("node-allocated", c.eng.allocated(c.st, c.extend_node))],
+                     entry_assume=lambda c: [c.field(c.extend_node, f).n >= 0 for f in ("partition_by", "order_by", "reverse")]))
+
+
+KEYS_C27_SQL = ["SQLModel.extend_to_near_sql:window-clause"]
 
 
 # ====================================================================== C18: the executors' order_rows steps (arguments handed to sort / head)
